@@ -56,9 +56,18 @@ class Campaign(cppcamp.FullCampaign):
         label, op, e, data, k = vec
         if 'crash' in res:
             return ("C++ decode of arbitrary bytes died: %s" % res['crash'], {'stderr': res.get('stderr', '')[-1500:]})
+        n = len(data)
+        if op == 'dec' and 'rok' in res:
+            # the same bytes decoded into an object that earlier vectors had already been decoded into
+            if bool(res['rok']) != bool(res.get('ok')):
+                return ("decode returned %s into a fresh object but %s into a previously used object of the same type" % (
+                    bool(res.get('ok')), bool(res['rok'])), {})
+            if res['rok'] and (res['rgbs'] != n or len(res['rencL']) != n):
+                return ("decode into a previously used object returned true for %d bytes but the object then holds a "
+                        "message of %d bytes (re-encoded: %d bytes): earlier contents survived" % (
+                            n, res['rgbs'], len(res['rencL'])), {'reencoded': res['rencL'].hex()})
         if not res.get('ok'):
             return None
-        n = len(data)
         enc = res['encB'] if e == '>' else (res['encL'] if e == '<' else res['encN'])
         if res['gbs'] != n or len(enc) != n:
             return ("decode returned true for %d bytes but the message is %d bytes (re-encoded: %d bytes)" % (
